@@ -17,6 +17,9 @@ EXPLANATION = (
     "and the writer takes the phase tuple in super-read order; R3 -- calls that are already phased in the input are carried (alleles and phase set taken from the input phase, for every such "
     "position whether or not a tagged read covers it) and are not re-derived from votes."
 )
+EXPLANATION += (
+    " " + "R3 also: consensus()'s position -> phase set map is created once, receives only the winning vote's phase set or the input call's own block id, is never rebound, and is the map that is returned."
+)
 NOT_DECIDED = "Vote arithmetic, thresholds, and allele detection on the tagged reads (C06)."
 ASSUMPTIONS = ["PhasedVcfWriter._remove_existing_phasing removes the input phase of every target call (C09.R2), so a call stays phased only if consensus() emits it"]
 
@@ -249,6 +252,17 @@ def r3(ctx):
             if not ((("%s in components" % pos), False) in ga or (("None is %s[%s]" % (phased_p, pos)), True) in ga):
                 ok2 = False
     ctx.ob(cs.qual, "votes-do-not-override-input-phase", ok2, cs.loc(vl[0]) if vl else cs.loc(), "a position that carries an input phase is skipped by the vote loop" if ok2 else "the vote loop writes alleles or a phase set for positions that already carry an input phase (re-derived / overwritten instead of carried)")
+    # the returned position -> phase set map is exactly what the two loops recorded: no later renumbering
+    binds = [(s_, v) for s_, v in util.assignments_to(cs.node, "components")]
+    fresh = [v for s_, v in binds if isinstance(v, ast.AST) and u(v) in ("dict()", "{}")]
+    rebound = [s_ for s_, v in binds if not (isinstance(v, ast.AST) and u(v) in ("dict()", "{}"))]
+    stores = [s_ for s_ in util.store_sites(cs.node) if util.root_name(s_.target) == "components"]
+    allowed = {"phase_set", "int(%s.block_id) - 1" % (phv if loops and len(loops) == 1 else "phase")}
+    odd = [s_ for s_ in stores if not (s_.kind == "subscript" and s_.value is not None and u(s_.value) in allowed)]
+    rets_c = [n for n in walk_function(cs.node) if isinstance(n, ast.Return) and isinstance(n.value, ast.Tuple) and len(n.value.elts) == 2]
+    okr = len(fresh) == 1 and not rebound and not odd and len(stores) >= 2 and bool(rets_c) and all(u(r_.value.elts[1]) == "components" for r_ in rets_c)
+    bad_txt = ("components = %s" % (u(rebound[0].value)[:70] if isinstance(rebound[0], ast.Assign) else u(rebound[0])[:70])) if rebound else (odd[0].text()[:80] if odd else "the returned map is not `components`")
+    ctx.ob(cs.qual, "phase-set-is-the-voted-or-carried-one", okr, cs.loc(rebound[0]) if rebound else (cs.loc(odd[0].stmt) if odd else cs.loc()), "components[pos] is only ever the winning vote's phase set (the reads' PS) or the input call's own block id; the map is returned as recorded" if okr else "`%s` changes the phase set of a position after it was recorded: a variant no longer gets the phase set of the reads that cover it / its input phase set" % bad_txt)
     # phased dict is filled for every variant of the table
     run = ctx.func(HP + ".run_haplotagphase")
     st = [s for s in util.store_sites(run.node) if s.kind == "subscript" and u(s.target.value) == "phased"]
